@@ -816,3 +816,36 @@ mutant("enc-div-native-nonempty-dropped", "C05", GRAPH, "            if not allo
 mutant("alg-roots-conversion", "C05", GRAPH, "                    roots_conv.append(y * width + x)", "                    roots_conv.append(y * height + x)", "ALG-10")
 mutant("alg-roots-swapped", "C05", GRAPH, "                    roots_conv.append(y * width + x)", "                    roots_conv.append(x * width + y)", "ALG-10")
 variant("enc-div-flipped", "C05", GRAPH, "            less_ranks.append(spanning_forest[e] & (rank[i] > rank[j]))", "            less_ranks.append((rank[j] < rank[i]) & spanning_forest[e])")
+
+# ---- C06 ---------------------------------------------------------------------------------------
+CYC_DEG = """            degree = count_true([is_active_edge[e] for j, e in graph.incident_edges[i]])
+            solver.ensure(degree == is_passed[i].cond(2, 0))
+            solver.ensure(
+                is_passed[i].then("""
+mutant("enc-cycle-degree-3", "C06", GRAPH, CYC_DEG, CYC_DEG.replace("is_passed[i].cond(2, 0))\n            solver.ensure(", "is_passed[i].cond(3, 0))\n            solver.ensure("), "ENC-S")
+mutant("enc-cycle-rank-strict", "C06", GRAPH, "                            is_active_edge[e] & (rank[j] >= rank[i])", "                            is_active_edge[e] & (rank[j] > rank[i])", "ENC-S")
+mutant("enc-cycle-root-bound", "C06", GRAPH, "                    <= is_root[i].cond(2, 1)", "                    <= is_root[i].cond(2, 2)", "ENC-S")
+mutant("enc-cycle-two-roots", "C06", GRAPH, "        solver.ensure(count_true(is_root) == 1)\n    return is_passed", "        solver.ensure(count_true(is_root) <= 2)\n    return is_passed", "ENC-S")
+mutant("enc-cycle-returns-root", "C06", GRAPH, "        solver.ensure(count_true(is_root) == 1)\n    return is_passed", "        solver.ensure(count_true(is_root) == 1)\n        return is_root\n    return is_passed", "ENC-S")
+mutant("enc-cycle-native-no-connectivity", "C06", GRAPH, """        line_graph = graph.line_graph()
+        _active_vertices_connected(
+            solver, is_active_edge, line_graph, acyclic=False, use_graph_primitive=True
+        )
+    else:
+        rank = solver.int_array(n, 0, n - 1)""", """        line_graph = graph.line_graph()
+    else:
+        rank = solver.int_array(n, 0, n - 1)""", "ENC-S")
+mutant("enc-line-graph-missing-pairs", "C06", GRAPH, "                for j in range(i):\n                    x = self.incident_edges[v][i][1]", "                for j in range(i - 1):\n                    x = self.incident_edges[v][i][1]", "ENC-S")
+mutant("enc-path-endpoints-always-2", "C06", GRAPH, "        solver.ensure(count_true(is_endpoint) == fold_or(is_active_edge).cond(2, 0))", "        solver.ensure(count_true(is_endpoint) == 2)", "ENC-S", "the original defect")
+mutant("enc-path-endpoints-0-or-2", "C06", GRAPH, "        solver.ensure(count_true(is_endpoint) == fold_or(is_active_edge).cond(2, 0))", "        solver.ensure((count_true(is_endpoint) == 2) | (count_true(is_endpoint) == 0))", "ENC-S", "admits a cycle")
+mutant("enc-path-degree-3", "C06", GRAPH, "            solver.ensure(is_passed[i].then((degree == 1) | (degree == 2)))", "            solver.ensure(is_passed[i].then((degree >= 1) & (degree <= 3)))", "ENC-S")
+mutant("enc-path-unpassed-free", "C06", GRAPH, "            solver.ensure((~is_passed[i]).then(degree == 0))\n", "", "ENC-S")
+mutant("alg-cycle-reshape-transposed", "C06", GRAPH, """        is_passed_flat = _active_edges_single_cycle(
+            solver, edges, graph, use_graph_primitive=use_graph_primitive
+        )
+        return is_passed_flat.reshape((is_active_edge.height + 1, is_active_edge.width + 1))""", """        is_passed_flat = _active_edges_single_cycle(
+            solver, edges, graph, use_graph_primitive=use_graph_primitive
+        )
+        return is_passed_flat.reshape((is_active_edge.width + 1, is_active_edge.height + 1))""", "ALG-9")
+variant("enc-path-degree-range", "C06", GRAPH, "            solver.ensure(is_passed[i].then((degree == 1) | (degree == 2)))", "            solver.ensure(is_passed[i].then((degree == 2) | (degree == 1)))")
+variant("enc-cycle-rank-flipped", "C06", GRAPH, "                            is_active_edge[e] & (rank[j] >= rank[i])", "                            (rank[i] <= rank[j]) & is_active_edge[e]")
